@@ -167,3 +167,12 @@ Definition enc_survivors (w : option world) : list N :=
   | None => [2%N]
   | Some w' => 1%N :: flat_map (fun e => match e_w e with Some _ => [N.of_nat (e_id e)] | None => [] end) (ents w')
   end.
+Definition enc_opt_str (o : option str) : list N :=
+  match o with None => [0%N] | Some s => 1%N :: N.of_nat (length s) :: s end.
+(* after a collection: per element, whether its wrapper is still cached, and the lxml slots *)
+Definition enc_after (w : option world) : list N :=
+  match w with
+  | None => [2%N]
+  | Some w' => 1%N :: flat_map (fun e => N.of_nat (e_id e) :: (match e_w e with Some _ => 1%N | None => 0%N end)
+                                          :: enc_opt_str (e_text e) ++ enc_opt_str (e_tail e)) (ents w')
+  end.
